@@ -200,6 +200,10 @@ struct Gen {
     size_t target = opidx[g.below(opidx.size())];
     static const char *kinds[] = {"EIO", "EOF0", "SHORT1", "SEEKFAIL", "TELLFAIL"};
     std::string pers = g.chance(0.5) ? "" : (g.chance(0.6) ? ":p" : fmt(":%d", (int)g.range(2, 6)));
+    if (prop == "C12" && g.chance(thorough ? 0.8 : 0.5)) {   // per-scenario enumeration of the fault position over every callback of the target op
+      int oi = 0, eop = 0; for (size_t q = 0; q < p.recs.size(); q++) if (p.recs[q].type == "op") { if (q == target) eop = oi; oi++; }
+      p.recs[0].set("enum", std::string(kinds[g.below(5)]) + pers).set("eop", eop).set("ecap", thorough ? 600 : 120);
+    } else
     p.recs[target].set("fault", fmt("%s@%d%s", kinds[g.below(5)], (int)g.below(g.chance(0.7) ? 12 : 120), pers.c_str()));
     op("heal");
     int np = (int)g.range(2, 4); for (int i = 0; i < np; i++) { Rec &r = op(g.chance(0.8) ? "pcm_seek" : "pcm_seek_page"); r.set("a", pick_pos()); read_op(0.1, 3); }
